@@ -159,13 +159,14 @@ def fixed_cases():
                         ("f", ["cat", [["rep", 0, None, L(0, "a")], ["opt", L(0, "b")]]], None),
                         ("g", ["cat", [["rep", 0, None, L(0, "a")], ["rep", 0, 1, L(0, "a")], ["opt", L(0, "b")]]], None)],
          ["a" * 254, "a" * 256, "a" * 257, "a" * 258, "a" * 259, "a" * 300, "a" * 301, "a" * 258 + "b", "a" * 257 + "b"])
-    # rules defined, extended and referenced under DIFFERENT letter-case spellings in one text: a rule is named as it was first written
+    # rules defined, extended and referenced under DIFFERENT letter-case spellings in one text: a rule is named as it was first mentioned
     respelled = "".join(f'{a} = "{c}" {b2}\r\n{b} =/ "{c}{c}"\r\n' for a, b, b2, c in
                         [("token", "TOKEN", "Word", "t"), ("Word", "word", "NUM", "w"), ("num", "NUM", "Tail", "n"), ("tail", "TAIL", "last", "l"),
                          ("Last", "LAST", "END", "s")]) + 'end = "."\r\nEND =/ "!"\r\n'
     respelled_rules = [(a, ["alt", 0, [["cat", [L(0, c), ["ref", b2]]], L(0, c + c)]], None) for a, b2, c in
-                       [("token", "Word", "t"), ("Word", "num", "w"), ("num", "tail", "n"), ("tail", "Last", "l"), ("Last", "end", "s")]] + \
-                      [("end", ["alt", 0, [L(0, "."), L(0, "!")]], None)]
+                       # (a rule object is created, and named, at its FIRST MENTION in the text — here a reference in the rule before)
+                       [("token", "Word", "t"), ("Word", "NUM", "w"), ("NUM", "Tail", "n"), ("Tail", "last", "l"), ("last", "END", "s")]] + \
+                      [("END", ["alt", 0, [L(0, "."), L(0, "!")]], None)]
     case("respelled-rules", respelled_rules, ["twnls.", "twnls!", "tt", "twnn", "twnlss", "TWNLS.", "t"], alpha="twnls.!", via_text=respelled)
     # wide alternations (8 or more alternatives) made of string literals only, case-sensitive and case-insensitive ones mixed, some
     # spelled alike up to case; and a first-match alternation that lists rules and ranges BEFORE quoted strings
